@@ -906,7 +906,7 @@ def _scalar_sig(t, a, b, text, where):
     if a is None or b is None:
         if where == 'qualifier' and a is None:
             return 'qualifier:explicit-NULL-replaced-by-declaration-default'
-        return 'value:%s:NULL-mismatch' % t
+        return 'value:NULL-mismatch'
     if t == 'string' and isinstance(a, str):
         if not isinstance(b, str):
             return 'value:string:wrong-class-%s' % type(b).__name__
@@ -973,7 +973,7 @@ def diff_value(d, path, t, a, b, where='value'):
                 d.add('value:array-shape', path, a, b)
             return
         if len(a) != len(b):
-            d.add('value:%s:array-length' % t, path, a, b)
+            d.add('value:array-length', path, a, b)
             return
         for i, (x, y) in enumerate(zip(a, b)):
             diff_value(d, '%s[%d]' % (path, i), t, x, y, where)
@@ -1438,7 +1438,8 @@ _SIMPLE_ESC = {'b': '\b', 't': '\t', 'n': '\n', 'f': '\f', 'r': '\r',
 def _hw_piece():
     lit = st.one_of(
         st.sampled_from(list("abcxyzABCDEF019 ',;{}()/*#$=:") +
-                        ['\xe4', '\u20ac', '\U0001F600', '\x7f', '\x85']),
+                        ['\xe4', '\u20ac', '\U0001F600', '\x7f', '\x85',
+                         '\xb2', '\u0663', '\uff11']),   # isdigit() chars
         st.characters(min_codepoint=0x20, blacklist_categories=('Cs',),
                       blacklist_characters='"\\'))
     simple = st.sampled_from(sorted(_SIMPLE_ESC))
@@ -1519,6 +1520,41 @@ def _nonascii_digit_after_short_hex(parts):
     return False
 
 
+def _decode_swallowing(src):
+    """
+    What a literal denotes for a decoder that takes every character with
+    str.isdigit() for a hex digit (used to name that root cause only).
+    None if that decoder would fail.
+    """
+    out = []
+    i = 0
+    while i < len(src):
+        c = src[i]
+        if c != '\\':
+            out.append(c)
+            i += 1
+        elif src[i + 1] in 'xX':
+            j, val, n = i + 2, 0, 0
+            while n < 4 and j < len(src):
+                d = src[j]
+                if d in _HEX:
+                    val = (val << 4) | int(d, 16)
+                elif d.isdigit():
+                    val = (val << 4) | (ord(d) - ord('0'))
+                else:
+                    break
+                j += 1
+                n += 1
+            if val >= 0x110000:
+                return None
+            out.append(chr(val))
+            i = j
+        else:
+            out.append(_SIMPLE_ESC[src[i + 1]])
+            i += 2
+    return ''.join(out)
+
+
 def handwritten_oracle(ctx, ex):
     parts, seps, pos = ex
     srcs, denoted, stats = _hw_render(parts)
@@ -1562,6 +1598,10 @@ def handwritten_oracle(ctx, ex):
                 re.search(r'\\[xX][0-9a-fA-F]{1,3}$', s) for s in srcs):
             return 'compiler:short-hex-escape-at-end-of-literal-raises-' \
                 'IndexError'
+        if isinstance(exc, ValueError) and \
+                _nonascii_digit_after_short_hex(parts) and \
+                any(_decode_swallowing(x) is None for x in srcs):
+            return 'compiler:hex-escape-swallows-non-ascii-digit'
         if isinstance(exc, MOFCompileError):
             return 'compile-rejected:%s:%s' % (type(exc).__name__,
                                                _norm_msg(exc.msg or ''))
@@ -1577,7 +1617,8 @@ def handwritten_oracle(ctx, ex):
             sig = 'compiler:escaped-apostrophe-dropped'
         elif not isinstance(got, str):
             sig = 'value:wrong-shape'
-        elif _nonascii_digit_after_short_hex(parts):
+        elif _nonascii_digit_after_short_hex(parts) and \
+                got == ''.join(_decode_swallowing(x) or '' for x in srcs):
             sig = 'compiler:hex-escape-swallows-non-ascii-digit'
         else:
             sig = 'value:string:changed'
